@@ -359,6 +359,16 @@ func (fr *Frame) loopHeader(b *ssa.BasicBlock, li *loopInfo, phiEntry map[*ssa.P
 				continue
 			}
 			old := x.heapGet(fr.cur, n, srt)
+			if cells := fr.stableCells(b, li, n); cells != nil && strings.HasPrefix(srt, "(Array Int ") {
+				// only loop-invariant cells are written: havoc exactly those
+				cs := srt[len("(Array Int ") : len(srt)-1]
+				nv := old
+				for _, c := range cells {
+					nv = sStore(nv, c, x.em.Fresh(n+".cell", cs))
+				}
+				fr.cur.m[n] = x.em.Def(n+".loop", srt, nv)
+				continue
+			}
 			nv := x.em.Fresh(n+".loop", srt)
 			fr.cur.m[n] = nv
 			if n == allocName {
@@ -390,7 +400,7 @@ func (fr *Frame) loopHeader(b *ssa.BasicBlock, li *loopInfo, phiEntry map[*ssa.P
 				if bo, ok := in2.(*ssa.BinOp); ok && bo.Op == token.LSS {
 					if add, ok := bo.X.(*ssa.BinOp); ok && add.X == phi {
 						if lv, ok := fr.vals[bo.Y]; ok {
-							fr.assume(sLe(fr.vals[phi].Term, lv.Term))
+							fr.assume(sLt(fr.vals[phi].Term, lv.Term))
 						}
 					}
 				}
@@ -402,6 +412,66 @@ func (fr *Frame) loopHeader(b *ssa.BasicBlock, li *loopInfo, phiEntry map[*ssa.P
 		c := fr.evalInvariant(inv, b, fr.cur)
 		fr.assume(c)
 	}
+}
+
+// addrRoot follows FieldAddr/IndexAddr chains to the value an address is derived from.
+func addrRoot(v ssa.Value) ssa.Value {
+	for {
+		switch a := v.(type) {
+		case *ssa.FieldAddr:
+			v = a.X
+		case *ssa.IndexAddr:
+			v = a.X
+		default:
+			return v
+		}
+	}
+}
+
+// stableCells: if every store to heap n inside loop li goes through an address whose root is
+// defined outside the loop, return the root cells (ref terms / backing-array terms).
+func (fr *Frame) stableCells(h *ssa.BasicBlock, li *loopInfo, n string) []string {
+	roots := fr.x.loopRoots[h][n]
+	if len(roots) == 0 {
+		return nil
+	}
+	seen := map[string]bool{}
+	var out []string
+	for _, r := range roots {
+		if r == nil {
+			return nil
+		}
+		if in, ok := r.(ssa.Instruction); ok {
+			if in.Block() == nil || li.body[in.Block()] {
+				return nil
+			}
+		}
+		v, ok := fr.vals[r]
+		if !ok {
+			switch r.(type) {
+			case *ssa.Global, *ssa.Const:
+				return nil
+			}
+			return nil
+		}
+		var t string
+		switch kindOf(v.T) {
+		case KPtr:
+			if v.Loc != nil {
+				return nil
+			}
+			t = v.Term
+		case KSlice:
+			t = v.F[0].Term
+		default:
+			return nil
+		}
+		if !seen[t] {
+			seen[t] = true
+			out = append(out, t)
+		}
+	}
+	return out
 }
 
 func (fr *Frame) backEdge(from, h *ssa.BasicBlock) {
@@ -526,7 +596,9 @@ func (fr *Frame) instr(in ssa.Instruction) {
 	case *ssa.Store:
 		p := fr.val(i.Addr)
 		loc := fr.ptrLoc(p, true)
+		fr.storeRoot = addrRoot(i.Addr)
 		fr.writeLoc(loc, fr.val(i.Val))
+		fr.storeRoot = nil
 	case *ssa.MakeSlice:
 		fr.makeSlice(i)
 	case *ssa.MakeMap:
